@@ -108,11 +108,13 @@ struct Reg {
       s.base = [](Params& P) { P.m["Gamma"] = dy(1408); };
       s.frozen.push_back("mu");
       s.derive = [](Params& P) { Q G = P.m["Gamma"]; P.m["mu"] = (LD)((G - 1) / (G + 1)); };  // derived registered parameter
-      s.alphabet = [](const std::string& n, LD b, LD d) { return std::vector<LD>{d, dy(1152), dy(1280), dy(1707), 2.0L, 3.0L, dy(1126)}; };
+      s.alphabet = [](const std::string& n, LD b, LD d) { return std::vector<LD>{d, dy(1152), dy(1280), dy(1707), 2.0L, 3.0L, dy(1126), 1.0625L, 1.03125L}; };  // Gamma down to transonic rarefactions (fan tail right of x = 0 for Gamma < 1.115)
       s.points = [first](int tier) {
         std::vector<Pt> pts; const long ts[] = {51, 205, 1024};
         int step = tier ? 1 : 2;  // xi = x/t on a dyadic grid: -2 .. 3.5 step 1/16 (thorough) or 1/8 (quick)
         int cnt = 0; for (long tk : ts) for (int k = 0; k <= 88; k += step) { LD xi = -2.0L + (LD)k / 16.0L; LD t = dy(tk); Pt q(xi * t, 0, 0, t); q.variant = cnt++; q.c[1] = first; pts.push_back(q); }
+        // refinement around xi = 0 (the sonic point of a transonic fan sits there): +-1/256 ... +-1/32
+        for (long tk : ts) for (int e = 5; e <= 8; e++) for (int sg = -1; sg <= 1; sg += 2) { LD xi = sg * ldexpl(1.0L, -e); LD t = dy(tk); Pt q(xi * t, 0, 0, t); q.variant = cnt++; q.c[1] = first; pts.push_back(q); }
         // start inside the wave structure (xi = 0.5: between fan tail and contact for every Gamma of the alphabet), so that the very
         // first evaluation after a parameter change is sensitive to every cached quantity
         std::rotate(pts.begin(), pts.begin() + (tier ? 40 : 20), pts.end());
